@@ -22,6 +22,7 @@ CHECKS = ["--bounds-check", "--pointer-check", "--undefined-shift-check", "--sig
 OBLIGATIONS = {
     "checksize": "rtr_pdu_check_size == KnownSize (the specification of RtrProps/C04.lean checkSize_spec) and memory-safe on the receive buffer, for every header and nested length",
     "footer": "the in-place byte-order conversions stay inside a size-checked PDU and are undone by the inverse conversion, for every PDU",
+    "intervals": "rtr_check_interval_option == applyIv with the RFC 8210 ranges (take / clamp / keep per interval mode), other timers untouched, for every socket, mode, value and type",
     "getbits": "lrtr_get_bits / lrtr_ipv6_get_bits == bit-field extraction (specification of RtrModel/Bits.lean) without undefined shifts, for every argument the trie passes",
 }
 
@@ -43,7 +44,7 @@ def _run(name, out):
     if not ok and not failed:
         failed = ["cbmc did not complete: " + txt[-400:].replace("\n", " | ")]
     inputs = {}
-    for m in re.finditer(r"^  (in_\w+|v|from|number|first|quantity)=(-?\d+)", txt, re.M):
+    for m in re.finditer(r"^  (in_\w+|v|from|number|first|quantity|e0|r0|y0|val|mode|type)=(-?\d+)", txt, re.M):
         inputs.setdefault(m.group(1), int(m.group(2)))
     out[name] = {"ok": ok, "failed": failed[:8], "inputs": inputs, "log": txt[-1500:], "seconds": round(time.time() - t0, 1), "cmd": " ".join(cmd)}
 
@@ -63,6 +64,26 @@ def join(handle):
     return out
 
 
+def collect(rep, handle):
+    """join, record obligations/coverage in the report, return the failed ones [(name, result)]"""
+    cb = join(handle)
+    rep.cov["cbmc"] = {k: {"ok": v["ok"], "seconds": v["seconds"], "what": OBLIGATIONS[k]} for k, v in cb.items()}
+    rep.cov.setdefault("trusted_base", []).append("cbmc 6.11 (symbolic tie obligations: %s)" % ", ".join(sorted(cb)))
+    failed = []
+    for k, v in cb.items():
+        rep.obligations["cbmc:" + k] = v["ok"]
+        if not v["ok"]:
+            failed.append((k, v))
+    return failed
+
+
+def report_no_input(rep, failed):
+    """a tie obligation fails and no property-level failing input was found"""
+    rep.build_log = "\n\n".join("== cbmc obligation %s: %s\nfailed properties: %s\ncounterexample inputs: %s\ncommand: %s\n%s" % (
+        k, OBLIGATIONS[k], "; ".join(v["failed"]), v["inputs"], v.get("cmd"), v["log"][-800:]) for k, v in failed)
+    vlib.proof_failure(rep, "\n".join("cbmc:%s (%s)" % (k, OBLIGATIONS[k]) for k, v in failed))
+
+
 def checksize_pdu(inputs):
     """the counterexample of `checksize` as a PDU on the wire (first 16 bytes from the trace, zero-filled to its length)"""
     import struct
@@ -78,3 +99,45 @@ if __name__ == "__main__":
     import json
     import sys
     print(json.dumps(join(start(sys.argv[1:] or list(OBLIGATIONS))), indent=1)[:3000])
+
+
+def spec_grid_tie(rep, drv):
+    """the C transcription of KnownSize (harness/cbmc/size_spec.h) against the Lean model's checkSize on a grid: every type value 0..12 and
+    255, versions 0..2, every length 8..140 plus the extremes, Error Reports with consistent and boundary nested lengths.
+    returns list of mismatching PDUs (hex)"""
+    import struct
+    out = os.path.join(vlib.BUILD, "spec_eval")
+    src = os.path.join(vlib.VERIF, "harness", "cbmc", "spec_eval.c")
+    hdr = os.path.join(vlib.VERIF, "harness", "cbmc", "size_spec.h")
+    if not os.path.exists(out) or os.path.getmtime(out) < max(os.path.getmtime(src), os.path.getmtime(hdr)):
+        r = subprocess.run(["gcc", "-O1", "-o", out, src], stdout=subprocess.PIPE, stderr=subprocess.STDOUT, text=True)
+        if r.returncode != 0:
+            return ["build of spec_eval failed: " + r.stdout[-300:]]
+    rnd = vlib.rng("specgrid")
+    pdus = []
+    lens = list(range(8, 141)) + [3247, 3248]
+    for typ in list(range(0, 13)) + [255]:
+        for ver in (0, 1, 2):
+            for ln in lens:
+                body = bytes(rnd.getrandbits(8) for _ in range(ln - 8))
+                pdus.append(struct.pack(">BBHI", ver, typ, rnd.getrandbits(16), ln) + body)
+    for ln in list(range(16, 80)) + [3248]:
+        for enc in sorted({0, 1, 4, 8, ln - 16, ln - 17, ln - 15, max(0, ln - 20), ln, 0xffffffff, 0xfffffff0, 0x80000000} - {-1}):
+            if enc < 0:
+                continue
+            for dt in (0, 1, -1, 5):
+                body = bytearray(rnd.getrandbits(8) for _ in range(ln - 8))
+                body[0:4] = struct.pack(">I", enc & 0xffffffff)
+                if enc + 8 <= ln - 8:
+                    txt = ln - 16 - enc + dt
+                    body[4 + enc:8 + enc] = struct.pack(">I", txt & 0xffffffff)
+                pdus.append(struct.pack(">BBHI", 1, 10, 2, ln) + bytes(body))
+    hexes = [p.hex() for p in pdus]
+    co, rc, err = vlib.run_lines(out, hexes)
+    mo, mrc, merr = vlib.run_lines(drv, ["checksize " + h for h in hexes])
+    bad = [h for h, a, b in zip(hexes, co, mo) if a != b]
+    if len(co) != len(hexes) or len(mo) != len(hexes):
+        bad.append("line count differs: spec %d model %d inputs %d" % (len(co), len(mo), len(hexes)))
+    if rep is not None:
+        rep.cov["size_spec_grid"] = {"pdus": len(hexes), "accepted": sum(1 for a in co if a == "1"), "mismatches": len(bad)}
+    return bad
